@@ -583,3 +583,98 @@ m("C18","blocksenders-return-on-known","x/notifications/keeper/msg_server_block_
   '		b := types.Block{','		if k.IsBlocked(ctx, msg.Creator, address.String()) {\n\t\t\treturn &types.MsgBlockSendersResponse{}, nil\n\t\t}\n\n\t\tb := types.Block{',"C18/R7","loop-not-left-early")
 m("C12","reward-skipped-when-no-provers","x/storage/keeper/rewards.go",
   '	k.rewardAllProviders(ctx, totalSize, sizeTracker)\n}','	if len(*sizeTracker) == 0 {\n\t\treturn\n\t}\n\tk.rewardAllProviders(ctx, totalSize, sizeTracker)\n}',"C12/R5","release-every-reward-block:ManageRewards->rewardAllProviders")
+
+# ---- C14/R6 (prover never named on its own form)
+from_patch("C14","seed-single-label-host-names-prover","seeded/C14-single-label-host-names-prover/patch.diff","C14/R6","form-candidates:prover-excluded","seed round 1 (a documented miss until C14/R6)")
+m("C14","candidate-tld-from-wrong-label","x/storage/keeper/providers.go",
+  '		domain := parts[partCount-2]\n\t\ttld := parts[partCount-1]\n','		domain := parts[partCount-2]\n\t\ttld := parts[0]\n',"C14/R6","form-candidates:prover-excluded")
+m("C14","candidate-shape-test-weaker-than-filter","x/storage/keeper/providers.go",
+  '		if partCount < 2 {\n\t\t\tcontinue\n\t\t}\n\n\t\tdomain := parts[partCount-2]','		if partCount < 1 {\n\t\t\tcontinue\n\t\t}\n\n\t\tdomain := parts[(partCount+partCount-2)%partCount]',"C14/R6","form-candidates:prover-excluded")
+benign("C14","domain-extraction-in-helper",[
+ ("x/storage/keeper/providers.go","""		parts := strings.Split(url.Hostname(), ".")
+		partCount := len(parts)
+		if partCount >= 2 {
+			filterDomain = parts[partCount-2]
+			filterTLD = parts[partCount-1]
+		}
+""","""		if d, t, ok := domainOf(url.Hostname()); ok {
+			filterDomain = d
+			filterTLD = t
+		}
+"""),
+ ("x/storage/keeper/providers.go","""		parts := strings.Split(url.Hostname(), ".")
+		partCount := len(parts)
+		if partCount < 2 {
+			continue
+		}
+
+		domain := parts[partCount-2]
+		tld := parts[partCount-1]
+""","""		domain, tld, ok := domainOf(url.Hostname())
+		if !ok {
+			continue
+		}
+"""),
+ ("x/storage/keeper/providers.go","// GetActiveProviders returns a list of recently active providers in a random order","""func domainOf(host string) (string, string, bool) {
+	parts := strings.Split(host, ".")
+	partCount := len(parts)
+	if partCount < 2 {
+		return "", "", false
+	}
+	return parts[partCount-2], parts[partCount-1], true
+}
+
+// GetActiveProviders returns a list of recently active providers in a random order"""),
+])
+
+# ---- round 3 of independent seeded changes (batch 1)
+from_patch("C01","seed3-window-helper-returns-offset","seeded/C01-window-helper-returns-offset/patch.diff","C01/R6","height-dimensions","seed round 3")
+from_patch("C02","seed3-window-helper-returns-offset","seeded/C01-window-helper-returns-offset/patch.diff","C02/R5","height-dimensions","seed round 3 (written against C01)")
+from_patch("C03","seed3-window-helper-returns-offset","seeded/C01-window-helper-returns-offset/patch.diff","C03/R8","height-dimensions","seed round 3 (written against C01)")
+from_patch("C02","seed3-proven-window-as-strict-age","seeded/C02-proven-window-as-strict-age/patch.diff","C02/R3","removal-only-on-miss","seed round 3")
+from_patch("C03","seed3-proven-window-strict-boundary","seeded/C03-proven-window-strict-boundary/patch.diff","C03/R2","proven-predicate","seed round 3")
+from_patch("C04","seed3-payonce-debit-error-overwritten","seeded/C04-payonce-debit-error-overwritten/patch.diff","C04/R5","error-propagates","seed round 3")
+from_patch("C05","seed3-wasm-postfile-skips-validatebasic","seeded/C05-wasm-postfile-skips-validatebasic/patch.diff","C05/R3","wasm:storage.MsgPostFile:validate-basic","seed round 3")
+from_patch("C07","seed3-wasm-postfile-skips-validatebasic","seeded/C05-wasm-postfile-skips-validatebasic/patch.diff","C07/R3","wasm:storage.MsgPostFile:validate-basic","seed round 3 (written against C05)")
+from_patch("C06","seed3-gauge-end-in-host-time-zone","seeded/C06-gauge-end-in-host-time-zone/patch.diff","C06/R1","host-time-zone","seed round 3")
+from_patch("C07","seed3-overflow-check-on-wrapped-product","seeded/C07-overflow-check-on-wrapped-product/patch.diff","C07/R3","product-overflow-checked","seed round 3")
+from_patch("C05","seed3-overflow-check-on-wrapped-product","seeded/C07-overflow-check-on-wrapped-product/patch.diff","C05/R3","product-overflow-checked","seed round 3 (written against C07)")
+from_patch("C08","seed3-init-guard-on-locked-field","seeded/C08-init-guard-on-locked-field/patch.diff","C08/R1","rns.MsgInit:new-or-expired","seed round 3")
+from_patch("C09","seed3-cancel-deletes-reparsed-key","seeded/C09-cancel-deletes-reparsed-key/patch.diff","C09/R4","rns.MsgCancelBid:delete-key","seed round 3")
+from_patch("C10","seed3-changeowner-guard-and-write-keys-differ","seeded/C10-changeowner-guard-and-write-keys-differ/patch.diff","C10/R6","absent-check-key=written-key","seed round 3")
+
+# ---- mutants / benign refactors for the rules added in round 3
+m("C07","space-check-adds-before-comparing","x/storage/keeper/msg_server_post_file.go",
+  """	if totalSize > paymentInfo.SpaceAvailable-paymentInfo.SpaceUsed {
+		return nil, sdkerrors.Wrapf(sdkerrors.ErrUnauthorized, "storage account does not have enough space available %d + %d > %d", paymentInfo.SpaceUsed, totalSize, paymentInfo.SpaceAvailable)
+	}
+	paymentInfo.SpaceUsed += totalSize
+""","""	paymentInfo.SpaceUsed += totalSize
+	if paymentInfo.SpaceUsed > paymentInfo.SpaceAvailable {
+		return nil, sdkerrors.Wrapf(sdkerrors.ErrUnauthorized, "storage account does not have enough space available %d > %d", paymentInfo.SpaceUsed, paymentInfo.SpaceAvailable)
+	}
+""","C07/R2","space-comparison-cannot-wrap","inverse of the space-check fix")
+benign("C07","remaining-space-in-variable",[
+ ("x/storage/keeper/msg_server_post_file.go","	if totalSize > paymentInfo.SpaceAvailable-paymentInfo.SpaceUsed {","	remaining := paymentInfo.SpaceAvailable - paymentInfo.SpaceUsed\n\tif remaining < totalSize {"),
+])
+m("C02","isyoung-compares-interval-with-height","x/storage/types/file.go",
+  'return f.Start+f.ProofInterval >= height','return f.ProofInterval >= height-f.ProofInterval',"C02/R5","height-dimensions")
+m("C16","expiry-compared-with-years","x/rns/keeper/msg_server_init.go",
+  'if bh <= whois.Expires {','if bh <= whois.Expires-bh {',"C16/R6","height-dimensions")
+benign("C01","window-helper-restated",[
+ ("x/storage/types/file.go","""	k := currentHeight - start
+	we := k - (k % window) + start
+
+	return we""","""	elapsed := currentHeight - start
+	return start + (elapsed/window)*window"""),
+])
+benign("C03","proven-window-via-local",[
+ ("x/storage/types/file.go","""	lastWindowStart := window - f.ProofInterval
+
+	return lastProven >= lastWindowStart // if last proven has been since the window start we can ski it""","""	return lastProven >= window-f.ProofInterval"""),
+])
+m("C06","plan-start-from-unix","x/storage/keeper/msg_server_buy_storage.go",
+  'Start:          ctx.BlockTime(),','Start:          time.Unix(ctx.BlockTime().Unix(), 0),',"C06/R1","host-time-zone")
+benign("C06","unix-time-normalised-to-utc",[
+ ("x/storage/keeper/msg_server_buy_storage.go",'Start:          ctx.BlockTime(),','Start:          time.Unix(ctx.BlockTime().Unix(), int64(ctx.BlockTime().Nanosecond())).UTC(),'),
+])
